@@ -85,5 +85,32 @@ func specs() []*spec {
 				"for metrics that (also) travel over gossipsub only structural clauses are checked (arrival order is not prescribed)",
 			},
 		},
+		{
+			ID: "C03", Harness: "clustersim", Level: "exploration",
+			Batch: 40, QuickSecs: 30, ThoroughSecs: 600, PlanTimeoutS: 20,
+			RequiredProbes: []string{"allocations_judged", "preference_checked", "refused_not_enough_peers", "identical_options_shortcut", "exclusion_reallocated", "short_ttl_metric", "invalid_metric"},
+			Rule:           "plan = peer set of 1-8 members (one real Cluster, the others present through their metrics), allocator ascend|descend, cluster default factors, then 15-200 steps: metric arrivals (numeric incl. ties and max uint64, non-numeric, invalid, TTL 50 ms-10 min or already expired), seeded pinset entries with arbitrary current allocations, Pin / BlockAllocate (RPC) with every factor pair, user (priority) allocations, identical or changed options, PeerRemove-driven exclusion; delays land calls before/at/after metric expiry instants. Each call is judged against the monitor table read at the same simulated instant. Non-trivial = >=1 call and >=1 irregular metric/exclusion fired; distinct = distinct canonical trace digest.",
+			Real:           []string{"ipfscluster.Cluster (Pin, pin, setupPin, allocate, obtainAllocations, PeerRemove/vacatePeer/repinFromPeer, BlockAllocate RPC, RPC server)", "allocator/ascendalloc, descendalloc, allocator/util.SortNumeric", "monitor/metrics.Store (freshness filter inside the model monitor)", "state/dsstate (pinset storage)", "gorpc over libp2p basic host on mocknet"},
+			Model:          []string{"consensus (single-copy pinset over dsstate, call log)", "monitor shell (table fed by the plan, real Store inside)", "tracker, IPFS connector, informer"},
+			Assumptions:    []string{"ties between equal metric values may fall either way (the shipped sort is not stable)", "a call during which simulated time passed is not judged (none is expected)", "ambiguous metric values (negative, fractional) are not generated"},
+		},
+		{
+			ID: "C04", Harness: "clustersim", Level: "exploration",
+			Batch: 40, QuickSecs: 30, ThoroughSecs: 600, PlanTimeoutS: 20,
+			RequiredProbes: []string{"refusals", "identical_repin", "updates", "meta_unpinned", "sharded_triple_seeded", "metadata_key_removed"},
+			Rule:           "plan = cluster defaults (factor pair, follower on/off), 1-5 healthy members, 2-5 CIDs, optional sharded triple, then 5-120 calls of Pin / PinPath / PinUpdate (option and direct) / Unpin / UnpinPath with every option (name, mode, factors incl. invalid pairs, expiry past/future with the clock moved between calls, metadata keys added/removed/changed, origins, user allocations, update source), plus re-pins derived from the stored entry (identical, key removed, key added, value changed). After every call the whole pinset is compared with an executable reference model of the statement. Non-trivial = >=1 call; distinct = distinct canonical trace digest.",
+			Real:           []string{"ipfscluster.Cluster (Pin, PinPath, PinUpdate, Unpin, UnpinPath, pin, setupPin, checkPinType, unpinClusterDag, cidsFromMetaPin)", "api.PinOptions.Equals, api.PinWithOpts", "state/dsstate + protobuf pin codec", "real allocator"},
+			Model:          []string{"consensus (single-copy pinset)", "monitor (all members healthy)", "IPFS connector (Resolve table, BlockGet of the cluster-DAG block)", "reference model of the statement (map CID -> pin + refusal rules)"},
+			Assumptions:    []string{"expiry is compared in whole seconds (documented lossy field)", "metadata with empty keys or empty values is not generated (the statement does not determine it)", "PinUpdate onto an existing sharded entry is not generated"},
+		},
+		{
+			ID: "C10", Harness: "clustersim", Level: "exploration",
+			Batch: 10, QuickSecs: 40, ThoroughSecs: 600, PlanTimeoutS: 30,
+			RequiredProbes: []string{"rehomed", "untouched_meets_min", "alert_delivered", "peer_removed", "expired_unpinned", "update_pin_in_pinset"},
+			Rule:           "plan = 1-8 real Cluster peers sharing one model consensus, pinset of 1-12 entries (any allocations, factor pairs, options, entries created by pin-update), per-survivor metric state, re-pinning on/off, follower on/off; one member fails (ping alert delivered to every survivor in a plan-chosen order) or is removed with PeerRemove; expiry scenario: entries with expiry before/after now, StateSync on every peer after the clock moved. Pinset before/after and the per-peer consensus call log are compared. Non-trivial = >=1 failure/removal/sync and >=1 entry affected; distinct = distinct canonical trace digest.",
+			Real:           []string{"ipfscluster.Cluster (alertsHandler, vacatePeer, repinFromPeer, pin, allocate, PeerRemove, StateSync, distances/isClosest, getTrustedPeers)", "real allocator", "state/dsstate"},
+			Model:          []string{"consensus (records which peer issued each LogPin/LogUnpin)", "monitors (alert channels driven by the plan; same metric view on every peer)", "tracker, IPFS, informer"},
+			Assumptions:    []string{"members agree on the peerset and on the metric view (given in the statement)", "follower mode is on for all peers or for none"},
+		},
 	}
 }
